@@ -22,8 +22,15 @@ theorem build_get (r c : Nat) (f : Nat → Nat → Option α) (i j : Nat) :
 theorem get_none_of_not_lt (s : Sto α) (i j : Nat) (h : ¬ (i < s.rows ∧ j < s.cols)) : s.get i j = none := by
   simp [get, h]
 
-@[simp] theorem fresh_rows (r c : Nat) : (fresh r c : Sto α).rows = r := rfl
-@[simp] theorem fresh_cols (r c : Nat) : (fresh r c : Sto α).cols = c := rfl
+@[simp] theorem fresh_rows (r c : Nat) (init : Option α) : (fresh r c init : Sto α).rows = r := rfl
+@[simp] theorem fresh_cols (r c : Nat) (init : Option α) : (fresh r c init : Sto α).cols = c := rfl
+theorem fresh_get (r c : Nat) (init : Option α) (i j : Nat) :
+    (fresh r c init).get i j = if i < r ∧ j < c then init else none := by
+  simp [fresh, build_get]
+@[simp] theorem resizeNC_rows (s : Sto α) (r c : Nat) (init : Option α) : (s.resizeNC r c init).rows = r := by
+  unfold resizeNC; split <;> rfl
+@[simp] theorem resizeNC_cols (s : Sto α) (r c : Nat) (init : Option α) : (s.resizeNC r c init).cols = c := by
+  unfold resizeNC; split <;> rfl
 @[simp] theorem const_rows (r c : Nat) (v : α) : (const r c v).rows = r := rfl
 @[simp] theorem const_cols (r c : Nat) (v : α) : (const r c v).cols = c := rfl
 @[simp] theorem conservativeResize_rows (s : Sto α) (r c : Nat) : (s.conservativeResize r c).rows = r := rfl
@@ -106,25 +113,27 @@ section
 variable {α : Type}
 
 theorem wf_ctorFull [One α] [Div α] [NatCast α] (kind : Kind) (k l c : Nat) (q : Bool)
-    (hk : 1 ≤ k) (hg : kind = Kind.gaussian → k = 1) : WF (ctorFull kind k l c q : Container α) := by
+    (hk : 1 ≤ k) (hg : kind = Kind.gaussian → k = 1) (init : Option α := none) :
+    WF (ctorFull kind k l c q init : Container α) := by
   cases q <;> constructor <;> simp [ctorFull] <;> first | omega | (intro h; simp [h])
 
-theorem wf_ctorDefault [One α] [Div α] [NatCast α] (kind : Kind) : WF (ctorDefault kind : Container α) :=
-  wf_ctorFull kind 1 1 0 false (Nat.le_refl 1) (fun _ => rfl)
+theorem wf_ctorDefault [One α] [Div α] [NatCast α] (kind : Kind) (init : Option α := none) :
+    WF (ctorDefault kind init : Container α) :=
+  wf_ctorFull kind 1 1 0 false (Nat.le_refl 1) (fun _ => rfl) init
 
-theorem wf_ctorDim [One α] [Div α] [NatCast α] (kind : Kind) (k d : Nat) (hk : 1 ≤ k) :
-    WF (ctorDim kind k d : Container α) := by
+theorem wf_ctorDim [One α] [Div α] [NatCast α] (kind : Kind) (k d : Nat) (hk : 1 ≤ k) (init : Option α := none) :
+    WF (ctorDim kind k d init : Container α) := by
   cases kind <;> simp only [ctorDim]
-  · exact wf_ctorFull _ k d 0 false hk (fun h => by cases h)
-  · exact wf_ctorFull _ 1 d 0 false (Nat.le_refl 1) (fun _ => rfl)
-  · exact wf_ctorFull _ k d 0 false hk (fun h => by cases h)
+  · exact wf_ctorFull _ k d 0 false hk (fun h => by cases h) init
+  · exact wf_ctorFull _ 1 d 0 false (Nat.le_refl 1) (fun _ => rfl) init
+  · exact wf_ctorFull _ k d 0 false hk (fun h => by cases h) init
 
-theorem wf_ctorLayout [One α] [Div α] [NatCast α] (kind : Kind) (k l c : Nat) (q : Bool) (hk : 1 ≤ k) :
-    WF (ctorLayout kind k l c q : Container α) := by
+theorem wf_ctorLayout [One α] [Div α] [NatCast α] (kind : Kind) (k l c : Nat) (q : Bool) (hk : 1 ≤ k)
+    (init : Option α := none) : WF (ctorLayout kind k l c q init : Container α) := by
   cases kind <;> simp only [ctorLayout]
-  · exact wf_ctorFull _ k l c q hk (fun h => by cases h)
-  · exact wf_ctorFull _ 1 l c q (Nat.le_refl 1) (fun _ => rfl)
-  · exact wf_ctorFull _ k l c q hk (fun h => by cases h)
+  · exact wf_ctorFull _ k l c q hk (fun h => by cases h) init
+  · exact wf_ctorFull _ 1 l c q (Nat.le_refl 1) (fun _ => rfl) init
+  · exact wf_ctorFull _ k l c q hk (fun h => by cases h) init
 
 /-- `GaussianMixture::resize` keeps a mixture or Gaussian well-formed (for a `Gaussian` only when
     the requested component count is 1, which is what `Gaussian::resize` passes). -/
@@ -137,7 +146,7 @@ theorem wf_gmResize (x : Container α) (h : WF x) (k l c : Nat) (hk : 1 ≤ k)
   simp only [gmResize, if_true, if_false, Bool.false_eq_true] <;>
   split_ifs with h1 h2 <;>
   constructor <;>
-  simp only [Sto.fresh_rows, Sto.fresh_cols, Sto.conservativeResize_rows, Sto.conservativeResize_cols,
+  simp only [Sto.fresh_rows, Sto.fresh_cols, Sto.resizeNC_rows, Sto.resizeNC_cols, Sto.conservativeResize_rows, Sto.conservativeResize_cols,
     if_true, if_false, Bool.false_eq_true] <;>
   first
     | assumption
@@ -158,7 +167,7 @@ theorem wf_psResize (x : Container α) (h : WF x) (k l c : Nat) (hk : 1 ≤ k)
   simp only [psResize, gmResize, if_true, if_false, Bool.false_eq_true] <;>
   split_ifs with h1 h2 h3 h4 <;>
   constructor <;>
-  simp only [Sto.fresh_rows, Sto.fresh_cols, Sto.conservativeResize_rows, Sto.conservativeResize_cols,
+  simp only [Sto.fresh_rows, Sto.fresh_cols, Sto.resizeNC_rows, Sto.resizeNC_cols, Sto.conservativeResize_rows, Sto.conservativeResize_cols,
     if_true, if_false, Bool.false_eq_true] <;>
   first
     | assumption
@@ -184,20 +193,20 @@ theorem wf_resize (x : Container α) (h : WF x) (k l c : Nat) (hk : 1 ≤ k) (hn
 /-! ### `augmentWithNoise` -/
 
 /-- A non-square noise covariance: returns `false`, nothing changes. -/
-theorem augment_nonsquare [Zero α] (x : Container α) (qr qc : Nat) (q : Nat → Nat → α) (h : qr ≠ qc) :
-    augment x qr qc q = some (x, false) := by
-  simp [augment, h]
+theorem augmentO_nonsquare [Zero α] (x : Container α) (qr qc : Nat) (q : Nat → Nat → Option α) (h : qr ≠ qc) :
+    augmentO x qr qc q = some (x, false) := by
+  simp [augmentO, h]
 
 /-- The container `augmentWithNoise` produces, given the mean storage after the zero rows were
     written. -/
-def augmented [Zero α] (x : Container α) (a : Nat) (q : Nat → Nat → α) (mean2 : Sto α) : Container α :=
+def augmented [Zero α] (x : Container α) (a : Nat) (q : Nat → Nat → Option α) (mean2 : Sto α) : Container α :=
   let dimOld := x.dimCovariance
   let dimCov := x.dimCovariance + a
   let cov1 := x.cov.conservativeResizeLike (Sto.const dimCov (dimCov * x.components) 0)
   let g1 := relocate x.components dimOld dimCov cov1.get
   let g2 := forUp x.components (fun i g =>
     putBlock 0 (i * dimCov + dimOld) dimOld a (fun _ _ => some 0)
-      (putBlock dimOld (i * dimCov + dimOld) a a (fun r c => some (q r c)) g)) g1
+      (putBlock dimOld (i * dimCov + dimOld) a a q g)) g1
   { x with
     dimNoise := x.dimNoise + a
     dim := x.dim + a
@@ -210,29 +219,29 @@ def augMean1 (x : Container α) (a : Nat) : Sto α := x.mean.conservativeResize 
 
 /-- A square noise covariance on a container whose mean storage has `components` columns:
     no assertion, returns `true`. -/
-theorem augment_square [Zero α] (x : Container α) (a : Nat) (q : Nat → Nat → α)
+theorem augmentO_square [Zero α] (x : Container α) (a : Nat) (q : Nat → Nat → Option α)
     (hmc : x.mean.cols = x.components) :
     ∃ mean2, (augMean1 x a).assignBlock (x.dim + a - a) 0 a (augMean1 x a).cols (Sto.const a x.components 0)
         = some mean2 ∧
-      augment x a a q = some (augmented x a q mean2, true) := by
+      augmentO x a a q = some (augmented x a q mean2, true) := by
   obtain ⟨m2, hm2⟩ := Sto.assignBlock_isSome (augMean1 x a) (Sto.const a x.components 0) (x.dim + a - a) 0 a
     (augMean1 x a).cols (by simp [augMean1, hmc])
   refine ⟨m2, hm2, ?_⟩
   simp only [augMean1] at hm2
-  simp only [augment, ne_eq, not_true_eq_false, if_false, hm2, augmented]
+  simp only [augmentO, ne_eq, not_true_eq_false, if_false, hm2, augmented]
 
 /-- If the mean storage does not have `components` columns the zero assignment asserts. -/
-theorem augment_asserts [Zero α] (x : Container α) (a : Nat) (q : Nat → Nat → α)
-    (hmc : x.mean.cols ≠ x.components) : augment x a a q = none := by
+theorem augmentO_asserts [Zero α] (x : Container α) (a : Nat) (q : Nat → Nat → Option α)
+    (hmc : x.mean.cols ≠ x.components) : augmentO x a a q = none := by
   have : (augMean1 x a).assignBlock (x.dim + a - a) 0 a (augMean1 x a).cols (Sto.const a x.components 0) = none := by
     unfold Sto.assignBlock
     rw [if_neg]
     simp only [augMean1, Sto.conservativeResize_cols, Sto.const_cols]
     omega
   simp only [augMean1] at this
-  simp only [augment, ne_eq, not_true_eq_false, if_false, this]
+  simp only [augmentO, ne_eq, not_true_eq_false, if_false, this]
 
-theorem wf_augmented [Zero α] (x : Container α) (h : WF x) (a : Nat) (q : Nat → Nat → α) (mean2 : Sto α)
+theorem wf_augmented [Zero α] (x : Container α) (h : WF x) (a : Nat) (q : Nat → Nat → Option α) (mean2 : Sto α)
     (hm : mean2.rows = x.dim + a ∧ mean2.cols = x.components) : WF (augmented x a q mean2) := by
   obtain ⟨kind, comps, qq, dcc, dim, dl, dci, dn, dcv, mean, cov, weight, state⟩ := x
   obtain ⟨hpos, hdcc, hdim, hdcov, hmr, hmc, hcr, hcc, hwr, hwc, hsr, hsc, hga⟩ := h
@@ -246,20 +255,28 @@ theorem wf_augmented [Zero α] (x : Container α) (h : WF x) (a : Nat) (q : Nat 
     | (intro hk'; have := hsr hk'; omega)
 
 /-- `augmentWithNoise` keeps the container well-formed, whatever it is given. -/
-theorem wf_augment [Zero α] (x : Container α) (h : WF x) (qr qc : Nat) (q : Nat → Nat → α)
-    (y : Container α) (b : Bool) (hy : augment x qr qc q = some (y, b)) : WF y := by
+theorem wf_augmentO [Zero α] (x : Container α) (h : WF x) (qr qc : Nat) (q : Nat → Nat → Option α)
+    (y : Container α) (b : Bool) (hy : augmentO x qr qc q = some (y, b)) : WF y := by
   by_cases hsq : qr = qc
   · subst hsq
-    obtain ⟨m2, hm2, he⟩ := augment_square x qr q h.meanCols
+    obtain ⟨m2, hm2, he⟩ := augmentO_square x qr q h.meanCols
     rw [he] at hy
     cases hy
     have hd := Sto.assignBlock_dims hm2
     apply wf_augmented x h qr q m2
     simp only [augMean1, Sto.conservativeResize_rows, Sto.conservativeResize_cols] at hd
     exact ⟨hd.1, by rw [hd.2, h.meanCols]⟩
-  · rw [augment_nonsquare x qr qc q hsq] at hy
+  · rw [augmentO_nonsquare x qr qc q hsq] at hy
     cases hy
     exact h
+
+theorem augment_nonsquare [Zero α] (x : Container α) (qr qc : Nat) (q : Nat → Nat → α) (h : qr ≠ qc) :
+    augment x qr qc q = some (x, false) :=
+  augmentO_nonsquare x qr qc _ h
+
+theorem wf_augment [Zero α] (x : Container α) (h : WF x) (qr qc : Nat) (q : Nat → Nat → α)
+    (y : Container α) (b : Bool) (hy : augment x qr qc q = some (y, b)) : WF y :=
+  wf_augmentO x h qr qc _ y b hy
 
 end
 end BFL.Shape
